@@ -170,8 +170,7 @@ def generic(pid, tier, seed, runs, oracle_fn, extra_worlds=None):
         big_fails = []
         if pid in ("C01", "C03"):
             import biglinks
-            for vi in (range(2) if tier == "quick" else range(8)):
-                vi = vi + (0 if pid == "C01" else 1)
+            for vi in (range(5) if tier == "quick" else range(10)):
                 bname, bf = biglinks.run_variant(sc, seed + 31 * vi, vi)
                 want = "re-run" if pid == "C03" else None
                 big_fails += [{"world": "biglinks-%d" % vi, "variant": bname, "why": x} for x in bf if (pid == "C01" and "re-run" not in x) or (pid == "C03")]
@@ -191,7 +190,7 @@ def generic(pid, tier, seed, runs, oracle_fn, extra_worlds=None):
     model = [ew.model_obs(m) for m in vlib.run_model(cases)]
     diffs, viol, hits, nontriv = [], [], {}, set()
     viol += big_fails
-    res.cov["real_size_linked_destination_worlds"] = (2 if tier == "quick" else 8) if pid in ("C01", "C03") else 0
+    res.cov["real_size_linked_destination_worlds"] = (5 if tier == "quick" else 10) if pid in ("C01", "C03") else 0
     for case, o, m, raw, (i, k, fl) in zip(cases, obs_l, model, raws, metas):
         if raw.get("timeout"):
             viol.append({"world": i, "run": k, "why": "the run did not terminate", "flags": fl})
